@@ -16,7 +16,7 @@ from .index import ClassInfo, Module, Program, Unknown, unparse
 SAFE_BUILTINS = {"len": len, "min": min, "max": max, "abs": abs, "int": int, "bool": bool, "str": str, "bytes": bytes,
                  "list": list, "tuple": tuple, "set": set, "sorted": sorted, "range": range, "round": round, "any": any,
                  "all": all, "sum": sum, "isinstance": None, "frozenset": frozenset, "dict": dict, "float": float,
-                 "enumerate": lambda *a: list(enumerate(*a)), "zip": lambda *a: list(zip(*a)), "reversed": lambda x: list(reversed(x)), "divmod": divmod}
+                 "enumerate": lambda *a: list(enumerate(*a)), "zip": lambda *a: list(zip(*a)), "reversed": lambda x: list(reversed(x)), "divmod": divmod, "pow": pow}
 SAFE_METHODS = {"lower", "upper", "index", "get", "startswith", "endswith", "encode", "decode", "split", "strip",
                 "keys", "values", "items", "count", "join", "find", "hex", "bit_length", "copy", "issubset", "union",
                 "intersection", "add", "discard", "append", "pop", "remove", "extend", "update", "setdefault", "clear", "splitlines", "rstrip", "lstrip",
